@@ -6,6 +6,9 @@ VOID = ['br', 'img', 'input', 'hr']                     # names whose built-in s
 PLAIN = ['div', 'p', 'span', 'ul', 'ol', 'li', 'table', 'tbody', 'thead', 'tr', 'td', 'select', 'optgroup', 'option', 'em', 'strong', 'b', 'i',
          'section', 'h1', 'x', 'nav', 'header', 'article', 'foo-bar', 'ns:tag']
 INLINE = None    # filled from the live config by callers that need it
+# the documented default list of inline-level elements (pinned copy: a changed DEFAULT table must not move the oracle with it)
+INLINE_DOC = ['a', 'abbr', 'acronym', 'applet', 'b', 'basefont', 'bdo', 'big', 'br', 'button', 'cite', 'code', 'del', 'dfn', 'em', 'font', 'i', 'iframe', 'img', 'input', 'ins',
+              'kbd', 'label', 'map', 'object', 'q', 's', 'samp', 'select', 'small', 'span', 'strike', 'strong', 'sub', 'sup', 'textarea', 'tt', 'u', 'var']
 
 
 # ------------------------------------------------------------------------------------------------- generation
@@ -38,6 +41,10 @@ def gen_elem(rnd, opt):
             if num and m[0] == 'attr' and m[2] is not None and rnd.random() < num: m[2] = m[2] + numtok()
             e['mentions'].append(tuple(m))
         rnd.shuffle(e['mentions'])
+    if opt.get('p_class2') and rnd.random() < opt['p_class2']:
+        # `..name`: the class attribute in its "multiple" form (styleName={styles.name} in jsx, :class in vue); the only class mention
+        e['mentions'] = [m for m in e['mentions'] if not (m[0] == 'class' or (m[0] == 'attr' and m[1] == 'class'))]
+        e['mentions'].insert(rnd.randint(0, len(e['mentions'])), ('class2', rnd.choice(['foo', 'a-b', 'x1', 'for'])))
     if rnd.random() < opt.get('p_text', .15) and e['name'] not in VOID:
         t = rnd.choice(opt['text_pool'])
         if num and rnd.random() < num: t = t + ' ' + numtok()
@@ -68,7 +75,11 @@ def gen_seq(rnd, opt, budget, depth):
 def print_mention(m):
     if m[0] == 'class': return '.' + m[1]
     if m[0] == 'id': return '#' + m[1]
+    if m[0] == 'class2': return '..' + m[1]
     return None
+
+
+SEP = []         # attribute separator used by print_attrset (a one-element list set by the caller; default blank)
 
 
 def print_attrset(ms):
@@ -85,14 +96,14 @@ def print_attrset(ms):
         elif kind == 'bool': parts.append(m[1] + '.')
         elif kind == 'implied': parts.append('!' + m[1] + ('' if m[2] is None else '=' + m[2]))
         elif kind == 'implbool': parts.append('!' + m[1] + '.' + ('' if m[2] is None else '=' + m[2]))
-    return '[' + ' '.join(parts) + ']'
+    return '[' + (SEP[0] if SEP else ' ').join(parts) + ']'
 
 
 def print_elem(e):
     s = e['name'] or ''
     run = []
     for m in e['mentions']:
-        if m[0] in ('class', 'id'):
+        if m[0] in ('class', 'id', 'class2'):
             if run: s += print_attrset(run); run = []
             s += print_mention(m)
         else: run.append(m)
